@@ -394,13 +394,132 @@ func scenario(x *explore.X, product bool) {
 	}
 }
 
+// ---- sequences of requests on ONE proxy: credentials are chosen per request, whatever was requested before -----
+
+var historyTable = []entry{
+	{"h1", "q1", "origin.test", "80"},
+	{"h2", "q2", "origin.test", "8080"},
+	{"h3", "q3", "other.test", "8080"},
+	{"h4", "q4", "up.test", "8080"},
+}
+
+var historyRequests = []struct {
+	name, host, port, authority string
+	own                         bool // the client supplies its own Authorization
+}{
+	{"origin.test", "origin.test", "80", "origin.test", false},
+	{"origin.test:8080", "origin.test", "8080", "origin.test:8080", false},
+	{"other.test:8080", "other.test", "8080", "other.test:8080", false},
+	{"other.test", "other.test", "80", "other.test", false},
+	{"origin.test+own-authorization", "origin.test", "80", "origin.test", true},
+}
+
+func historyScenario(x *explore.X, n int) {
+	viaUp := x.ChooseFree("upstream", 2) == 1
+	var seq []int
+	for i := 0; i < n; i++ {
+		seq = append(seq, x.ChooseFree(fmt.Sprintf("request-%d", i), len(historyRequests)))
+	}
+	opts := world.Options{}
+	for _, e := range historyTable {
+		opts.Credentials = append(opts.Credentials, e.String())
+	}
+	if viaUp {
+		opts.Upstream = "http://up.test:8080"
+	}
+	w, err := world.Start(opts)
+	if err != nil {
+		x.Failf("harness/start", "%v", err)
+		return
+	}
+	hops := map[string]*world.Hop{}
+	for _, a := range []string{"up.test:8080", "origin.test:80", "origin.test:8080", "other.test:8080", "other.test:80"} {
+		hops[a], _ = w.Hop(a, nil)
+	}
+	ownAz := "Basic " + base64.StdEncoding.EncodeToString([]byte(clientAuthz))
+	var names, out []string
+	for _, k := range seq {
+		rq := historyRequests[k]
+		names = append(names, rq.name)
+		ctx := fmt.Sprintf("request %s after %v, upstream proxy %v", rq.name, names[:len(names)-1], viaUp)
+		cl, _ := w.Client()
+		extra := ""
+		if rq.own {
+			extra = "Authorization: " + ownAz + "\r\n"
+		}
+		cl.Send([]byte("GET http://" + rq.authority + "/x HTTP/1.1\r\nHost: " + rq.authority + "\r\n" + extra + "\r\n"))
+		addr := net.JoinHostPort(rq.host, rq.port)
+		if viaUp {
+			addr = "up.test:8080"
+		}
+		msgs, conns, _ := hops[addr].Next()
+		x.Check()
+		if len(msgs) != 1 {
+			x.Failf("not-forwarded", "%s: %s received %d requests; client got %q", ctx, addr, len(msgs), world.Clip(cl.Recv()))
+			return
+		}
+		m := msgs[0]
+		hops[addr].Conns[conns[0]].Send([]byte("HTTP/1.1 200 OK\r\nContent-Length: 2\r\n\r\nok"))
+		site := match(historyTable, rq.host, rq.port)
+		wantAz := ""
+		switch {
+		case rq.own:
+			wantAz = ownAz
+		case site != nil:
+			wantAz = "Basic " + tok(site.user, site.pass)
+		}
+		az := m.Get("Authorization")
+		if (wantAz == "" && len(az) != 0) || (wantAz != "" && (len(az) != 1 || az[0] != wantAz)) {
+			x.Failf("site-credentials-wrong/after-earlier-requests", "%s: next hop received Authorization %q, want %q", ctx, az, wantAz)
+		}
+		wantPA := ""
+		if viaUp {
+			wantPA = "Basic " + tok("h4", "q4")
+		}
+		pa := m.Get("Proxy-Authorization")
+		if (wantPA == "" && len(pa) != 0) || (wantPA != "" && (len(pa) != 1 || pa[0] != wantPA)) {
+			x.Failf("upstream-credentials-wrong/after-earlier-requests", "%s: next hop received Proxy-Authorization %q, want %q", ctx, pa, wantPA)
+		}
+		for _, e := range historyTable {
+			t := tok(e.user, e.pass)
+			n := bytes.Count(m.Raw, []byte(t))
+			allowed := 0
+			if "Basic "+t == wantAz {
+				allowed++
+			}
+			if "Basic "+t == wantPA {
+				allowed++
+			}
+			if n > allowed {
+				x.Failf("credential-leak/table/after-earlier-requests", "%s: credentials of entry %s seen %d times at %s (allowed %d): %q", ctx, e, n, addr, allowed, world.Clip(m.Raw))
+			}
+		}
+		out = append(out, fmt.Sprint(len(az), len(pa)))
+		cl.Close()
+	}
+	x.Outcome(strings.Join(out, ","))
+	if err := w.Stop(); err != nil {
+		x.Failf("shutdown", "%v", err)
+	}
+	for _, h := range hops {
+		h.Close()
+	}
+	if l := world.Leaks(); l != "" {
+		x.Failf("goroutine-leak", "%s", l)
+	}
+}
+
 func TestC06(t *testing.T) {
 	s := explore.NewSuite(t, "C06", "exploration",
-		"credential table = every subset of size <= 3 of 8 entries (exact host:port, *:port, host:*, *:*, other host, entries matching the upstream proxy) (93) x upstream(none, static URL with userinfo, static URL resolved through the table, PAC-selected) x target/kind(6: implicit/explicit port 80, CONNECT, inside MITM, other host) x client fields(12: Proxy-Authorization once/twice/nominated by Connection/mixed case, client Authorization Basic / Bearer / Digest / Negotiate / malformed Basic / lower-case scheme); deviation-bounded (D=2 quick) and full product table x upstream x target with client fields as the only bounded dimension (D=1 quick, unbounded thorough); every byte received by the origin, by the upstream proxy and inside the tunnel is searched for the base64 token of every credential, each occurrence must be where expectCreds allows, and expected credentials must be present")
+		"credential table = every subset of size <= 3 of 8 entries (exact host:port, *:port, host:*, *:*, other host, entries matching the upstream proxy) (93) x upstream(none, static URL with userinfo, static URL resolved through the table, PAC-selected) x target/kind(6: implicit/explicit port 80, CONNECT, inside MITM, other host) x client fields(12: Proxy-Authorization once/twice/nominated by Connection/mixed case, client Authorization Basic / Bearer / Digest / Negotiate / malformed Basic / lower-case scheme); deviation-bounded (D=2 quick) and full product table x upstream x target with client fields as the only bounded dimension (D=1 quick, unbounded thorough); every byte received by the origin, by the upstream proxy and inside the tunnel is searched for the base64 token of every credential, each occurrence must be where expectCreds allows, and expected credentials must be present; plus (history) ONE proxy (with and without an upstream proxy whose credentials come from the table) and EVERY sequence of 2 (quick) / 4 (thorough) requests out of 5 (same host on two ports, another host on two ports, the client's own Authorization): each request carries the credentials of its own target whatever was requested before")
 	s.Assume = []string{"secrets are searched in their Basic (base64) form and the harness terminates TLS at the scripted origin", "simnet owns every connection"}
 	s.Add(explore.Scenario{Name: "bounded", Remote: true, Tiers: []string{"quick"}, MaxDev: map[string]int{"quick": 2},
 		Run: func(x *explore.X) { world.Run(t, x, func() { scenario(x, false) }) }})
 	s.Add(explore.Scenario{Name: "product", Remote: true, MaxDev: map[string]int{"quick": 0, "thorough": -1},
 		Run: func(x *explore.X) { world.Run(t, x, func() { scenario(x, true) }) }})
+	s.Add(explore.Scenario{Name: "history-quick", Remote: true, Tiers: []string{"quick"},
+		Run: func(x *explore.X) { world.Run(t, x, func() { historyScenario(x, 2) }) }})
+	s.Add(explore.Scenario{Name: "history-thorough", Remote: true, Tiers: []string{"thorough"},
+		Run: func(x *explore.X) { world.Run(t, x, func() { historyScenario(x, 4) }) }})
 	s.Main()
 }
